@@ -33,6 +33,16 @@ def run(chk):
         words = " ".join(["a", "bb", "ccc", "dddd", "lovestruck"][i % 5] for i in range(k))
         cases.append({"src": f"My dream is {words}\nsay my dream\n", "meta": f"poetic {k} words"})
         cases.append({"src": f"My dream is {words}. a bb\nsay my dream\nrock Q like {words}\nsay Q at 0\n", "meta": f"poetic {k} words frac"})
+    # long strings (ASCII, 2-, 3- and 4-byte characters, every alignment around 64/128/256 bytes) as the offending value of
+    # every kind of runtime error: the error must come out and render
+    for pad in (0, 1, 2, 3, 61, 62, 63, 64, 65, 126, 127, 128, 254, 255, 256, 300):
+        for unit in ("é", "世", "🎸", "x"):
+            long_s = "a" * pad + unit * 40
+            for st in ("build X up", "say X at \"k\"", "say 1 at X", "let Y at X at 1 be 2", "cast X with 99", "turn up X", "join X",
+                       "say X over 2", "say X taking 1", "rock Y with 1\nsay Y at X", "cut X with 5", "X taking 1"):
+                if pad not in (0, 63, 64, 127, 255) and rng.random() < 0.6:
+                    continue
+                cases.append({"src": f"put \"{long_s}\" into X\n{st}\nsay \"after\"\n", "meta": "long value in error"})
     known_finding_crash(chk, "F7")
     recs = execsuite.run(chk, cases, "ill", suite_name="EXEC-illtyped")
     crashed = 0
